@@ -519,3 +519,5 @@ def check(run, prog):
                uses[0].call if uses else fn.node, patterns=sorted({u.name for u in uses}))
     from .c11_termination import rule_literal_termination
     rule_literal_termination(run, prog)      # R-11.7
+    from .c11_termination import rule_long_constants
+    rule_long_constants(run, prog)           # R-11.8
